@@ -376,7 +376,7 @@ func (fr *tsFrame) stepAssign(n ast.Node, st tsState) tsState {
 	cloned := false
 	for i, l := range as.Lhs {
 		if fv := fieldOf(fr.info, l); fv != nil && fr.cfg.watch[fv] != nil && st.ts == tsOpen && !fr.cfg.watch[fv][refName(fr.fi.Obj)] {
-			fr.cfg.report("store-while-open:"+fv.Name(), fr, st.ts, as.Pos())
+			fr.cfg.report("store-while-open:"+objName(fv), fr, st.ts, as.Pos())
 		}
 		if fr.isTracked(l) {
 			var rhs ast.Expr
